@@ -45,12 +45,40 @@ Definition parse_unsigned_base0 (s : bytes) : option Z :=
     else digits_val 10 s 0
   end.
 
+(* strconv.ParseUint gives up at the first character at which something is wrong:
+   a character that is not a digit of the base is a syntax error, unless the
+   digits before it already exceed the largest value — then it is a range error *)
+Fixpoint range_first (base : Z) (s : bytes) (acc mx : Z) : bool :=
+  match s with
+  | [] => false
+  | b :: r =>
+    let d := digit_val b in
+    if d <? base then (let a := acc * base + d in if mx <? a then true else range_first base r a mx) else false
+  end.
+
+Definition range_first_base0 (s : bytes) (mx : Z) : bool :=
+  match s with
+  | [] => false
+  | z :: r =>
+    if byte_eqb z x30 then
+      match r with
+      | p :: ((_ :: _) as ds) =>
+        let pz := bz p in
+        if (pz =? 98) || (pz =? 66) then range_first 2 ds 0 mx
+        else if (pz =? 111) || (pz =? 79) then range_first 8 ds 0 mx
+        else if (pz =? 120) || (pz =? 88) then range_first 16 ds 0 mx
+        else range_first 8 r 0 mx
+      | _ => range_first 8 r 0 mx
+      end
+    else range_first 10 s 0 mx
+  end.
+
 Definition parse_uint (s : bytes) (bits : Z) : Z * numerr :=
   match s with
   | [] => (0, NumSyntax)
   | _ =>
     match parse_unsigned_base0 s with
-    | None => (0, NumSyntax)
+    | None => if range_first_base0 s (2 ^ bits - 1) then (2 ^ bits - 1, NumRange) else (0, NumSyntax)
     | Some v => let mx := 2 ^ bits - 1 in if mx <? v then (mx, NumRange) else (v, NumOk)
     end
   end.
@@ -65,7 +93,10 @@ Definition parse_int (s : bytes) (bits : Z) : Z * numerr :=
     | [] => (0, NumSyntax)
     | _ =>
       match parse_unsigned_base0 body with
-      | None => (0, NumSyntax)
+      | None =>
+        if range_first_base0 body (2 ^ bits - 1)
+        then (if neg then (- 2 ^ (bits - 1), NumRange) else (2 ^ (bits - 1) - 1, NumRange))
+        else (0, NumSyntax)
       | Some un =>
         let cutoff := 2 ^ (bits - 1) in
         if negb neg && (cutoff <=? un) then (cutoff - 1, NumRange)
